@@ -72,7 +72,9 @@ def plan(prop, tier, seed):
                 jobs.append(job(prop, t, c, budget_s=budget, split_depth=(split or 22) if big else None))
 
     two = ['tb2', 'tbshift', 'tbloop', 'hyb2', 'hyb2p', 'hyb2pm', 'ev2', 'evloop', 'tb_ev', 'tb_hy', 'hy_tb',
-           'weak2', 'weakonly', 'weaktb', 'tbshift_sym', 'grp_out', 'grp_in', 'grp_sib']
+           'weak2', 'weakonly', 'weaktb', 'tbshift_sym', 'grp_out', 'grp_in', 'grp_sib',
+           'multi_shift', 'multi_shift_rev', 'multi_shift_sym', 'multi_tb']
+    multi = ['multi_shift', 'multi_shift_rev', 'multi_shift_sym', 'multi_tb', 'multi_weak']
     three = ['chain3ev', 'chain3', 'tbchain3', 'fanin', 'fanout', 'loop3shift', 'weak3', 'weak3in', 'nested', 'reenter']
     q = tier == 'quick'
     if prop == 'C01':
@@ -82,8 +84,9 @@ def plan(prop, tier, seed):
         if not q:
             add(['tb2', 'hyb2', 'weak2', 'tb_ev', 'evloop'], K=2, D=1, lazies=(True, False))
     elif prop == 'C02':
-        add(['hyb2', 'hyb2p', 'ev2', 'evloop', 'tb_ev', 'weak2', 'weakonly', 'grp_out', 'grp_in', 'grp_sib', 'tb2'],
+        add(['hyb2', 'hyb2p', 'ev2', 'evloop', 'tb_ev', 'weak2', 'weakonly', 'grp_out', 'grp_in', 'grp_sib', 'tb2'] + multi,
             K=2 if q else 3, lazies=(True, False))
+        add(['multi_shift', 'multi_shift_rev'], K=3, lazies=(True,))
         add(['hyb2', 'ev2', 'tb_ev'], K=2 if q else 3, lazies=(True,), extra={'future_outputs': True})
         add(['chain3ev', 'chain3', 'fanin'] if q else three, K=2)
         add(['hyb2', 'ev2', 'tb2'], K=2 if q else 3, until='symnc', caches=(False,))
@@ -91,10 +94,11 @@ def plan(prop, tier, seed):
             add(['hyb2', 'ev2', 'tb_ev', 'weak2'], K=2, D=1)
     elif prop == 'C03':
         add(['tb2', 'tbshift', 'tbloop', 'tb_hy', 'hy_tb', 'hyb2pm', 'hyb2p', 'tb_ev'], K=3, lazies=(True, False))
-        add(['hyb2', 'ev2', 'weaktb', 'weakonly', 'weak2', 'grp_sib'], K=2 if q else 3)
+        add(['hyb2', 'ev2', 'weaktb', 'weakonly', 'weak2', 'grp_sib'] + multi, K=2 if q else 3)
+        add(['multi_shift', 'multi_tb'], K=3, lazies=(True,))
         add(['tb2', 'tbshift', 'tbloop'], K=3 if q else 4, until=4 if q else 5, lazies=(True, False))
         add(['tbshift_sym', 'tb2', 'tbshift'], K=3, until='symnc', caches=(False,), lazies=(True, False))
-        add(['fanin', 'tbchain3'] if q else ['fanin', 'fanout', 'tbchain3'], K=2)
+        add(['fanin', 'tbchain3', 'fanin_same'] if q else ['fanin', 'fanout', 'tbchain3', 'fanin_same', 'fanin_same2'], K=2)
         add(['hyb2'] if q else ['hyb2', 'ev2'], K=2 if q else 3, extra={'future_outputs': True})
         if not q:
             add(['tb2', 'tbshift', 'hyb2pm'], K=3, D=1, lazies=(True, False))
@@ -105,12 +109,14 @@ def plan(prop, tier, seed):
             lazies=(True,) if q else (True, False))
         add(['chain3ev', 'reenter', 'nested'] if q else three, K=2, lazies=(True, False) if not q else (True,))
         add(['tb2', 'hyb2', 'evloop'], K=2 if q else 3, until='symnc', caches=(False,), lazies=(True, False))
+        add(['tworoutes', 'tworoutes_flat'], K=2, until=2, caches=(True,), masks='extremes', extra={'no_self': ['A', 'B', 'C', 'D']})
         if not q:
             add(['hyb2', 'weak2', 'chain3ev'], K=2, D=1)
             add(two, K=2, salts=(1, 2))
     elif prop == 'C07':
-        add(['hyb2', 'hyb2p', 'ev2', 'evloop', 'tb_ev', 'weak2', 'weakonly', 'grp_out', 'grp_in', 'grp_sib', 'tb2', 'tb_hy'],
+        add(['hyb2', 'hyb2p', 'ev2', 'evloop', 'tb_ev', 'weak2', 'weakonly', 'grp_out', 'grp_in', 'grp_sib', 'tb2', 'tb_hy'] + multi,
             K=2 if q else 3, lazies=(True, False))
+        add(['multi_shift', 'multi_shift_rev'], K=3, lazies=(True,))
         add(['chain3ev', 'chain3'] if q else three, K=2)
         add(['hyb2', 'ev2', 'tb_ev'], K=2 if q else 3, until='symnc', caches=(False,))
         add(['hyb2'] if q else ['hyb2', 'ev2'], K=2 if q else 3, extra={'future_outputs': True})
@@ -118,7 +124,7 @@ def plan(prop, tier, seed):
             add(['hyb2', 'chain3ev', 'tb_ev'], K=2, D=1)
     elif prop == 'C10':
         add(['tb2', 'tbshift', 'tbloop', 'tb_hy', 'hy_tb', 'hyb2', 'hyb2p', 'tb_ev', 'ev2', 'evloop', 'weak2', 'grp_out', 'grp_in',
-             'grp_sib'], K=2 if q else 3, lazies=(True,))
+             'grp_sib', 'multi_shift', 'multi_tb'], K=2 if q else 3, lazies=(True,))
         add(['tb2', 'tb_hy', 'hyb2'], K=3, until=4, lazies=(True,))
         add(['tbchain3', 'fanout', 'chain3'] if q else three, K=2, lazies=(True,))
         add(['tb2', 'tb_ev', 'hyb2'], K=2 if q else 3, until='symnc', caches=(False,), lazies=(True,))
